@@ -3,17 +3,25 @@ C09 — static size and resource figures are true upper bounds.
 
 Model: `Model/Ext.lean` (`ExtData`, `threshold`, `scriptSize`), `Model/Satisfy.lean` (satisfier
 templates with the `ItemSize` table), `Model/Encode.lean`.  Helper lemmas: `Lemmas/Bounds*.lean`.
+State of /repo: after the `fix:` commits for `cast_dupif` (+2 bytes / +1 element), uncompressed
+keys (66-byte push) and `threshold` (`i < k`).
 
 What is proved here
 * T1 `witness_bounds_partial` / `dissat_bounds_partial`: whenever the model satisfier (either
-  mode, any assets) returns a stack, the library's `sat_data` / `dissat_data` exists and bounds
-  its element count, its serialized size and (outside tapscript) its scriptSig size — for every
-  fragment satisfying `good`, by induction over the AST (no bound on size / depth / n).
-* The full statement `witness_bounds_full` is FALSE for the faithful model; the negation is
-  proved on four concrete witnesses, one per defect class excluded by `good`:
-  `d:` wrapper, uncompressed `pk_h` key, `thresh` whose (k+1)-th difference is negative,
-  `thresh` for which the library derives no figure although it is satisfiable.
-* T2 `script_size_eq`: see the second half of the file.
+  mode, any assets) returns a stack, the library's `sat_data` / `dissat_data` EXISTS and bounds
+  its element count, its serialized size and (outside tapscript) its scriptSig size — by
+  induction over the AST (no bound on size / depth / n), `d:` wrappers, uncompressed keys and
+  every `thresh` included.  The remaining hypotheses (`good`) are: `multi_a` only in tapscript
+  with `k ≥ 1`; a child whose dissatisfaction enters the parent's satisfaction is `disOK` (not
+  an `and_v` with a dissatisfiable right child, for which the satisfier builds a
+  dissatisfaction while `ExtData::and_v` has `dissat_data: None`); `thresh` children have a
+  dissatisfaction figure.  They are needed: `andv_dissat_undershoots` is a well-typed
+  counter-example of the faithful model without them (on the real library that input trips
+  `assert!(!l_dis.has_sig)` in `sat_dissat.rs` instead — reported under C11).
+* T2 `script_size_eq`, `script_num_size_eq`, `has_free_verify_eq`, and `pk_cost_eq`:
+  `pk_cost` (the figure the script-size limits are checked against) = script size, plus a
+  documented over-estimate for `multi_a`.
+* T3 `static_ops_eq`, `opcount_partial`.
 -/
 import MsVerif.Lemmas.BoundsInduct
 import MsVerif.Lemmas.BoundsSize
@@ -25,8 +33,9 @@ open MsVerif ExtData
 
 /-! ## T1: witness count / size / scriptSig size -/
 
-/-- T1 (satisfactions).  `good` excludes exactly the documented defects (see its doc comment);
-`AssetsOk` says what the caller hands in has the sizes the library assumes. -/
+/-- T1 (satisfactions).  `good`: see its doc comment; `AssetsOk` says what the caller hands in
+has the sizes the library assumes (Schnorr signatures 64/65 bytes, keys revealed for raw
+`pk_h` hashes compressed in Bare/Legacy). -/
 theorem witness_bounds_partial (ke : KeyEnv) (ctx : Ctx) (mall rootHasSig : Bool) (a : Assets)
     (ha : AssetsOk ke ctx a) (ms : Ms) (hg : good ke ctx ms = true) (w : List Ph)
     (h : (satDissat ⟨ke, ctx, mall, rootHasSig, a⟩ ms).sat.stack = .stack w) :
@@ -35,10 +44,10 @@ theorem witness_bounds_partial (ke : KeyEnv) (ctx : Ctx) (mall rootHasSig : Bool
   obtain ⟨d, hd, c1, c2, c3⟩ := (bound_ms ke ctx mall rootHasSig a ha ms hg).1 w h
   exact ⟨d, hd, c1, c2, fun hc => c3 (by simp [ess, hc])⟩
 
-/-- T1 (dissatisfactions): the same for `dissat_data`, whenever the library has that figure. -/
+/-- T1 (dissatisfactions): the same for `dissat_data`, for every `disOK` fragment. -/
 theorem dissat_bounds_partial (ke : KeyEnv) (ctx : Ctx) (mall rootHasSig : Bool) (a : Assets)
     (ha : AssetsOk ke ctx a) (ms : Ms) (hg : good ke ctx ms = true)
-    (hd : (extOf ke ctx ms).dissatData.isSome = true) (w : List Ph)
+    (hd : disOK ms = true) (w : List Ph)
     (h : (satDissat ⟨ke, ctx, mall, rootHasSig, a⟩ ms).dissat.stack = .stack w) :
     ∃ d, (extOf ke ctx ms).dissatData = some d ∧ w.length ≤ d.wCount
       ∧ (w.map Ph.size).sum ≤ d.wSize ∧ (ctx ≠ .tap → (w.map phSs).sum ≤ d.ssSize) := by
@@ -53,14 +62,14 @@ theorem witness_size_le (ke : KeyEnv) (ctx : Ctx) (mall rootHasSig : Bool) (a : 
   obtain ⟨d, hd, _, c2, _⟩ := witness_bounds_partial ke ctx mall rootHasSig a ha ms hg w h
   exact ⟨d, hd, by simp only [witnessSize]; omega⟩
 
-/-- the statement one would like (every well-typed fragment, no side conditions) -/
+/-- the statement one would like (every well-typed fragment, no side conditions on it) -/
 def witness_bounds_full : Prop :=
   ∀ (ke : KeyEnv) (ctx : Ctx) (mall rootHasSig : Bool) (a : Assets) (ms : Ms) (w : List Ph),
     AssetsOk ke ctx a → (typeOf ms).isSome = true →
     (satDissat ⟨ke, ctx, mall, rootHasSig, a⟩ ms).sat.stack = .stack w →
     ∃ d, (extOf ke ctx ms).satData = some d ∧ w.length ≤ d.wCount ∧ (w.map Ph.size).sum ≤ d.wSize
 
-/-! ### the four witnesses against the full statement -/
+/-! ### concrete environment for examples and for the counter-example -/
 
 /-- keys 0..99 compressed (33 bytes), 100.. uncompressed (65 bytes) -/
 def ke0 : KeyEnv where
@@ -87,69 +96,45 @@ theorem assets0_ok (ctx : Ctx) (keys : List Key) : AssetsOk ke0 ctx (assets0 key
   rawPk _ _ h := by simp [assets0] at h
   rawEcdsa _ _ h := by simp [assets0] at h
 
-def cfg0 (ctx : Ctx) (keys : List Key) : SatCfg := ⟨ke0, ctx, false, true, assets0 keys⟩
+/-- `or_d(or_i(c:raw_pkh(0),and_v(v:pk(1),pk(2))),pk(3))` -/
+def msAndVDis : Ms :=
+  .orD (.orI (.check (.rawPkH 0)) (.andV (.verify (.check (.pkK 1))) (.check (.pkK 2)))) (.check (.pkK 3))
 
-/-- `dv:older(1)` -/
-def msDupIf : Ms := .dupIf (.verify (.older 1))
+/-- Why `disOK` is needed.  Malleable mode, signatures for keys 1 and 3, key of the raw hash
+unknown: the model satisfier dissatisfies the `or_i` through its `and_v` branch (`[0, sig1, 0]`),
+for which `ExtData` has no figure; the `or_d` figure 147 then only covers the other
+alternatives, the produced stack has size 148. -/
+theorem andv_dissat_undershoots :
+    (typeOf msAndVDis).isSome = true
+    ∧ (satDissat ⟨ke0, .segwitv0, true, true, assets0 [1, 3]⟩ msAndVDis).sat.stack
+        = .stack [.ecdsaSig 3, .pushZero, .ecdsaSig 1, .pushZero]
+    ∧ (extOf ke0 .segwitv0 msAndVDis).satData = some ⟨147, 4, 147, 2, 0⟩
+    ∧ (147 : Nat) < ([Ph.ecdsaSig 3, Ph.pushZero, Ph.ecdsaSig 1, Ph.pushZero].map Ph.size).sum := by decide
 
-/-- F4: the satisfaction of `dv:older(1)` is the single element `01` (serialized size 2); the
-library's figure is size 1 / count 2 -/
-theorem dupif_size_undershoots :
-    (satDissat (cfg0 .segwitv0 []) msDupIf).sat.stack = .stack [.pushOne]
-    ∧ (extOf ke0 .segwitv0 msDupIf).satData = some ⟨1, 2, 1, 1, 0⟩
-    ∧ (1 : Nat) < ([Ph.pushOne].map Ph.size).sum := by decide
-
-/-- `c:pk_h(100)` with an uncompressed key in the Legacy context -/
-def msPkhUnc : Ms := .check (.pkH 100)
-
-theorem pkh_uncompressed_undershoots :
-    (satDissat (cfg0 .legacy [100]) msPkhUnc).sat.stack = .stack [.ecdsaSig 100, .pubkey 100 66]
-    ∧ (extOf ke0 .legacy msPkhUnc).satData = some ⟨138, 2, 138, 2, 0⟩
-    ∧ (138 : Nat) < ([Ph.ecdsaSig 100, Ph.pubkey 100 66].map Ph.size).sum := by decide
-
-/-- `l:n:after(1)` = `or_i(0,n:after(1))`: satisfaction `[0]` (size 1) is SMALLER than the
-dissatisfaction `[1]` (size 2) -/
-def msL : Ms := .alt (.orI .fls (.zeroNotEqual (.after 1)))
-/-- `thresh(1,pk(0),a:l:n:after(1),a:l:n:after(1))` -/
-def msThreshCut : Ms := .thresh 1 (.cons (.check (.pkK 0)) (.cons msL (.cons msL .nil)))
-
-/-- the `i <= k` fold takes the two largest differences 72 and -1: 5 + 72 - 1 = 76, but
-satisfying only the key costs 73 + 2 + 2 = 77 -/
-theorem thresh_cut_negative_undershoots :
-    (satDissat (cfg0 .segwitv0 [0]) msThreshCut).sat.stack = .stack [.pushOne, .pushOne, .ecdsaSig 0]
-    ∧ (extOf ke0 .segwitv0 msThreshCut).satData = some ⟨76, 3, 75, 2, 0⟩
-    ∧ (76 : Nat) < ([Ph.pushOne, Ph.pushOne, Ph.ecdsaSig 0].map Ph.size).sum := by decide
-
-/-- `thresh(1,and_b(pk(0),s:pk(1)),a:0)`: only one child is satisfiable, the fold wants `k+1` -/
-def msThreshNone : Ms :=
-  .thresh 1 (.cons (.andB (.check (.pkK 0)) (.swap (.check (.pkK 1)))) (.cons (.alt .fls) .nil))
-/-- … below `or_d(·,pk(2))` the figure then only covers the other branch -/
-def msThreshNoneOrD : Ms := .orD msThreshNone (.check (.pkK 2))
-
-theorem thresh_without_figure :
-    (satDissat (cfg0 .segwitv0 [0, 1]) msThreshNone).sat.stack = .stack [.ecdsaSig 1, .ecdsaSig 0]
-    ∧ (extOf ke0 .segwitv0 msThreshNone).satData = none := by decide
-
-theorem thresh_without_figure_undershoots :
-    (satDissat (cfg0 .segwitv0 [0, 1]) msThreshNoneOrD).sat.stack = .stack [.ecdsaSig 1, .ecdsaSig 0]
-    ∧ (extOf ke0 .segwitv0 msThreshNoneOrD).satData = some ⟨75, 3, 75, 2, 0⟩
-    ∧ (75 : Nat) < ([Ph.ecdsaSig 1, Ph.ecdsaSig 0].map Ph.size).sum := by decide
-
-/-- the full statement fails (already at `dv:older(1)`, which is well typed) -/
 theorem witness_bounds_full_false : ¬ witness_bounds_full := by
   intro h
-  obtain ⟨h1, h2, h3⟩ := dupif_size_undershoots
-  obtain ⟨d, hd, _, hs⟩ := h ke0 .segwitv0 false true (assets0 []) msDupIf [.pushOne]
-    (assets0_ok _ _) (by decide) h1
+  obtain ⟨ht, h1, h2, h3⟩ := andv_dissat_undershoots
+  obtain ⟨d, hd, _, hs⟩ := h ke0 .segwitv0 true true (assets0 [1, 3]) msAndVDis _ (assets0_ok _ _) ht h1
   rw [h2] at hd
   cases hd
   exact absurd hs (by decide)
 
-/-- non-vacuity of T1: a script with `thresh`, `multi`, hashes, `or_i`, `andor` satisfies `good` -/
+/-- the inputs that violated the bound before the fixes now satisfy `good`: `dv:older(1)`,
+`c:pk_h(<uncompressed>)`, `thresh(1,pk,a:l:n:after(1),a:l:n:after(1))` (negative differences),
+`or_d(thresh(1,and_b(pk,s:pk),a:0),pk)` (a child without satisfaction figure) -/
+example : good ke0 .segwitv0 (.dupIf (.verify (.older 1))) = true
+    ∧ good ke0 .legacy (.check (.pkH 100)) = true
+    ∧ good ke0 .segwitv0 (.thresh 1 (.cons (.check (.pkK 0))
+        (.cons (.alt (.orI .fls (.zeroNotEqual (.after 1))))
+        (.cons (.alt (.orI .fls (.zeroNotEqual (.after 1)))) .nil)))) = true
+    ∧ good ke0 .segwitv0 (.orD (.thresh 1 (.cons (.andB (.check (.pkK 0)) (.swap (.check (.pkK 1))))
+        (.cons (.alt .fls) .nil))) (.check (.pkK 2))) = true := by decide
+
+/-- non-vacuity of T1: a script with `thresh`, `multi`, hashes, `or_i`, `andor`, `d:` satisfies `good` -/
 example : good ke0 .segwitv0
-    (.andOr (.thresh 1 (.cons (.check (.pkK 0)) (.cons (.swap (.check (.pkK 1)))
+    (.andOr (.thresh 2 (.cons (.check (.pkK 0)) (.cons (.swap (.check (.pkK 1)))
         (.cons (.alt (.hash .sha256 0)) .nil))))
-      (.orI (.multi 2 [3, 4, 5]) (.andV (.verify (.check (.pkH 6))) (.older 144)))
+      (.orI (.multi 2 [3, 4, 5]) (.andV (.verify (.check (.pkH 6))) (.dupIf (.verify (.older 144)))))
       (.check (.pkK 7))) = true := by decide
 
 /-! ## T2: the script size is exact -/
@@ -176,13 +161,21 @@ example : sizeOk ke0 .legacy
       (.cons (.swap (.check (.pkH 1))) (.cons (.alt (.hash .sha256 0)) .nil)))) (.after 8388608))) = true := by
   decide
 
-/-- …whereas `pk_cost`, the figure `check_global_consensus_validity` compares with the script
-size limits, counts an uncompressed key push as 65 bytes: one byte short per uncompressed key in
-`pk_k` / `multi` -/
-theorem pk_cost_undershoots_uncompressed :
-    (extOf ke0 .legacy (.check (.pkK 100))).pkCost = 66
-    ∧ scriptSize ke0 .legacy (.check (.pkK 100)) = 67
-    ∧ (Script.serialize (encode ke0 .legacy (.check (.pkK 100)))).length = 67 := by decide
+/-- `pk_cost`, the figure `check_global_consensus_validity` compares with the script-size
+limits, equals `script_size` — uncompressed keys included — except that `multi_a`'s `num_cost`
+table over-estimates by one byte when `n > 16 ≥ k` or `16 < k ≤ 127` (`costSlack`).  Hence
+`script_size ≤ pk_cost` always, and `=` for scripts without `multi_a`. -/
+theorem pk_cost_eq (ke : KeyEnv) (ctx : Ctx) (ms : Ms) (h : costOk ke ctx ms = true) :
+    (extOf ke ctx ms).pkCost = scriptSize ke ctx ms + costSlack ms := pkCost_eq ke ctx ms h
+
+theorem pk_cost_ge_encoded_length (ke : KeyEnv) (ctx : Ctx) (ms : Ms) (h1 : costOk ke ctx ms = true)
+    (h2 : sizeOk ke ctx ms = true) :
+    (Script.serialize (encode ke ctx ms)).length ≤ (extOf ke ctx ms).pkCost := by
+  rw [pk_cost_eq ke ctx ms h1, script_size_eq ke ctx ms h2]; omega
+
+example : costOk ke0 .legacy (.andV (.verify (.check (.pkK 100))) (.orI (.multi 2 [100, 0, 1])
+      (.thresh 1 (.cons (.check (.pkK 0)) (.cons (.swap (.check (.pkH 101))) .nil))))) = true
+    ∧ (extOf ke0 .legacy (.check (.pkK 100))).pkCost = 67 := by decide
 
 /-! ## T3: executed opcodes -/
 
